@@ -1,3 +1,4 @@
+import e2e_e2etraffic
 SPEC = {
     "corr": [{"kind": "json", "quick": 10000, "thorough": 1000000},
              {"kind": "nf5", "quick": 3000, "thorough": 200000},
@@ -16,6 +17,7 @@ SPEC = {
               "runner": {"pkg": "./producer", "test": "TestVerifRawSocket", "race": False, "timeout": "30m"}},
              {"kind": "producerk", "label": "sink-values", "seed_offset": 92, "quick": 60, "thorough": 6000,
               "runner": {"pkg": "./producer", "test": "TestVerifSarama", "race": False, "timeout": "30m"}}],
+    "extra": [e2e_e2etraffic.traffic_cycles],
     "rule": "json: IPFIX / NetFlow v9 messages built directly from typed values (every Interpret result kind x content "
             "class: plain / quotes+backslashes / controls / HTML / multi-byte and invalid UTF-8 / random octets; NaN, +-Inf, "
             "64-bit extremes; IPv4, IPv6, v4-mapped and odd-length addresses), marshalled by the real JSONMarshal, compared "
